@@ -6,6 +6,7 @@ Locals are looked up by base name among the symbols of that function; a renamed 
 (exit 2), never a silent pass.
 """
 import json
+import os
 import re
 import subprocess
 
@@ -19,7 +20,18 @@ def symbols(gb):
     return re.findall(r'^Symbol\.+: (.*)$', out, re.M)
 
 
-def fill(template_path, gb, out_path):
+def cpp_expand(expr, cppargs, incdirs):
+    """macro-expand a predicate with the C preprocessor (contract macros are shared with the C contract units)"""
+    src = '@@@PREDICATE@@@\n' + expr + '\n'
+    cmd = ['gcc', '-E', '-P', '-x', 'c'] + [f'-I{d}' for d in incdirs] + cppargs + ['-']
+    p = subprocess.run(cmd, input=src, stdout=subprocess.PIPE, stderr=subprocess.PIPE, text=True)
+    if p.returncode != 0:
+        raise LoopMapError('cpp failed on loop predicate: ' + p.stderr[-800:])
+    out = p.stdout.split('@@@PREDICATE@@@', 1)[1]
+    return ' '.join(out.split())
+
+
+def fill(template_path, gb, out_path, incdirs=()):
     tpl = json.load(open(template_path))
     syms = symbols(gb)
     nloops = 0
@@ -28,6 +40,11 @@ def fill(template_path, gb, out_path):
             for lp in loops:
                 prefix = lp.pop('fn_prefix')
                 locs = lp.pop('locals', [])
+                cppargs = lp.pop('cpp', None)
+                if cppargs:
+                    for key in ('assigns', 'invariants', 'decreases'):
+                        if key in lp:
+                            lp[key] = cpp_expand(lp[key], cppargs, list(incdirs))
                 pairs = []
                 for name in locs:
                     cands = [s for s in syms if s.startswith(prefix + '::') and s.endswith('::' + name)]
